@@ -40,6 +40,14 @@ Theorem C16_cancel : forall cf st evs1 evs2,
 Proof. exact cancel_stops. Qed.
 Print Assumptions C16_cancel.
 
+(** Cancel that arrives while the init segment of representation k is being uploaded: the receiver
+    sees the inits up to k and nothing else, whatever events follow; the session is stopped. *)
+Theorem C16_cancel_in_init : forall cf now initres k evs inits gs st,
+  session_c cf now initres (Some k) evs = (inits, gs, st) ->
+  inits = takeZ (k + 1) (repIdxs cf) /\ gs = [] /\ ph st = PStopped.
+Proof. exact cancel_in_init. Qed.
+Print Assumptions C16_cancel_in_init.
+
 (** Step mode: a trigger taken by the running loop makes exactly one group (one attempt per
     representation) for the next number, at that number's availability time. *)
 Theorem C16_step_mode : forall cf st ev,
@@ -66,22 +74,11 @@ Theorem C16_duration : forall cf now initres evs d inits gs st,
 Proof. exact duration_session. Qed.
 Print Assumptions C16_duration.
 
-(** In real-time mode the catch-up loop of the pinned code ([sc_catchup_checks = false]) ignores the duration: the last segment goes out without
-    lmsg, and a sender that stays behind goes on beyond the duration. *)
-Theorem C16_duration_catchup_refuted :
-  let cf := mk_scfg [ {| ir_kind := RVideo; ir_tab := Some rep2s |} ] rep2s 8000 2000 cfg0 false false (Some 2) false in
-  (let '(_, gs, st) := session cf 11200 [] [EvTimer {| fi_clock := [14300; 14301]; fi_refuse := [] |}] in
-   map (map (fun m => (mp_nr m, mp_last m))) gs = [[(5, false)]; [(6, false)]] /\ ph st = PStopped /\ lastToSend st = 6)
-  /\
-  (let '(_, gs, st) := session cf 11200 [] [EvTimer {| fi_clock := [14300; 16400; 18500; 18501]; fi_refuse := [] |}] in
-   map (map (fun m => (mp_nr m, mp_last m))) gs = [[(5, false)]; [(6, false)]; [(7, false)]; [(8, false)]] /\ lastToSend st = 6).
-Proof. exact catchup_witness. Qed.
-
-(** With the proposed repair of the catch-up loop ([sc_catchup_checks = true],
-    proposed_fixes/C16-catchup-duration.diff; the harness reads from the source which variant the tree
-    under test has) the duration theorem holds in step mode AND in real time, for every sequence of
-    clock readings: exactly floor(d*1000/segDurMS)+1 groups, only the last marked lmsg, then stopped. *)
-Theorem C16_duration_repaired_catchup : forall cf now initres evs d inits gs st,
+(** Duration in step mode AND in real time, for every sequence of clock readings, with the catch-up
+    loop of the current code (fix 07f3435: it looks at lastSegNrToSend; [mk_scfg] sets
+    [sc_catchup_checks = true], and the harness reads from the source which variant the tree under
+    test has): exactly floor(d*1000/segDurMS)+1 groups, only the last marked lmsg, then stopped. *)
+Theorem C16_duration_realtime : forall cf now initres evs d inits gs st,
   sc_catchup_checks cf = true ->
   sc_dur cf = Some d -> 0 <= d -> 0 < sc_segDurMS cf ->
   sc_chunked cf = false -> tabs_ok cf -> avail_total cf ->
@@ -93,16 +90,30 @@ Theorem C16_duration_repaired_catchup : forall cf now initres evs d inits gs st,
   session cf now initres evs = (inits, gs, st) ->
   inits = repIdxs cf /\ lenZ gs = k + 1 /\ numbered_last cf (first + k) first gs /\ ph st = PStopped.
 Proof. exact duration_session_any. Qed.
-Print Assumptions C16_duration_repaired_catchup.
+Print Assumptions C16_duration_realtime.
 
-Theorem C16_catchup_repaired_example :
-  let cf := mk_scfg_rc RCeil true [ {| ir_kind := RVideo; ir_tab := Some rep2s |} ] rep2s 8000 2000 cfg0 false false (Some 2) false in
+(** A sender that is behind (upload of number 5 ends after 6, 7, ... became available): 6 is marked
+    last and nothing follows. *)
+Theorem C16_catchup_example :
+  let cf := mk_scfg [ {| ir_kind := RVideo; ir_tab := Some rep2s |} ] rep2s 8000 2000 cfg0 false false (Some 2) false in
   (let '(_, gs, st) := session cf 11200 [] [EvTimer {| fi_clock := [14300; 14301]; fi_refuse := [] |}] in
    map (map (fun m => (mp_nr m, mp_last m))) gs = [[(5, false)]; [(6, true)]] /\ ph st = PStopped)
   /\
   (let '(_, gs, st) := session cf 11200 [] [EvTimer {| fi_clock := [14300; 16400; 18500; 18501]; fi_refuse := [] |}] in
    map (map (fun m => (mp_nr m, mp_last m))) gs = [[(5, false)]; [(6, true)]] /\ ph st = PStopped).
 Proof. exact catchup_fixed_witness. Qed.
+
+(** What fix 07f3435 repaired (statement about the former shape of the catch-up loop,
+    [sc_catchup_checks = false], which the model keeps so that a revert is recognised): the last
+    segment went out without lmsg, and a sender that stayed behind went on beyond the duration. *)
+Theorem C16_duration_catchup_refuted_before_fix :
+  let cf := mk_scfg_rc RCeil false [ {| ir_kind := RVideo; ir_tab := Some rep2s |} ] rep2s 8000 2000 cfg0 false false (Some 2) false in
+  (let '(_, gs, st) := session cf 11200 [] [EvTimer {| fi_clock := [14300; 14301]; fi_refuse := [] |}] in
+   map (map (fun m => (mp_nr m, mp_last m))) gs = [[(5, false)]; [(6, false)]] /\ ph st = PStopped /\ lastToSend st = 6)
+  /\
+  (let '(_, gs, st) := session cf 11200 [] [EvTimer {| fi_clock := [14300; 16400; 18500; 18501]; fi_refuse := [] |}] in
+   map (map (fun m => (mp_nr m, mp_last m))) gs = [[(5, false)]; [(6, false)]; [(7, false)]; [(8, false)]] /\ lastToSend st = 6).
+Proof. exact catchup_witness. Qed.
 
 (** Completeness: if the availability function never answers before the segment is available (and
     at most 1 s late), every attempt of every group is accepted by the segment server model, i.e.
